@@ -1,2 +1,4 @@
+from bounded import jsonlib_conformance
 from bounded import c14_messages
 EXTRA_CHECKS = [c14_messages.run]
+EXTRA_CHECKS = list(EXTRA_CHECKS) + [jsonlib_conformance.run]
